@@ -247,7 +247,66 @@ def workout():
     return n
 
 
+def derived_table():
+    """Run in a FRESH interpreter: derive a subclass from every module class (legal; the metaclass registers every class
+    that has an mtype, so the subclass becomes the class used for loading that type) and report, per type, whether the
+    class now registered still carries the controller / option metadata of the specified class."""
+    import rv.api as rv
+    from rv.modules import MODULE_CLASSES
+
+    out = {}
+    for tkey, t in spec.types().items():
+        base = MODULE_CLASSES[t.type]
+
+        def table(cls):
+            inst = cls()
+            return {
+                "controllers": [[n, c.number, repr(c.value_type) if not isinstance(c.value_type, type) else c.value_type.__name__,
+                                 repr(getattr(inst, n))] for n, c in cls.controllers.items()],
+                "options": [[n, o.byte, o.bit, o.size, bool(getattr(o, "inverted", False))] for n, o in cls.options.items()],
+            }
+        before = table(base)
+        data = C.save(rv.Synth(base()))
+        try:
+            derived = type(base)("Derived" + base.__name__, (base,), {"__module__": __name__})
+            reg = MODULE_CLASSES[t.type]
+            loaded = C.load_bytes(data).module
+            table(reg), table(derived)
+        except Exception as e:
+            out[tkey] = {"same_as_before": False, "derived_same": False, "loaded_values_equal": False,
+                         "error": type(e).__name__ + ": " + str(e)[:120]}
+            continue
+        out[tkey] = {"same_as_before": table(reg) == before, "derived_same": table(derived) == before,
+                     "n_before": len(before["controllers"]), "n_registered": len(table(reg)["controllers"]),
+                     "loaded_controllers": len(loaded.controllers),
+                     "loaded_values_equal": [repr(getattr(loaded, n)) for n in loaded.controllers] ==
+                                            [row[3] for row in before["controllers"]]}
+    return out
+
+
+def derived_check():
+    import json
+    import os
+    import subprocess
+    import sys
+
+    env = dict(os.environ, PYTHONPATH=treeenv.VERIF)
+    code = ("import json; from rvmc import treeenv; treeenv.setup(); from checks import c13; "
+            "print(json.dumps(c13.derived_table()))")
+    r = subprocess.run([sys.executable, "-c", code], capture_output=True, text=True, env=env, cwd=treeenv.VERIF)
+    if r.returncode != 0:
+        return 0, [C.viol("derived-class-run-failed", {}, {"stderr": r.stderr[-400:]}, {"derived": True})]
+    tb = json.loads(r.stdout.strip().splitlines()[-1])
+    vs = []
+    for tkey, row in tb.items():
+        if not (row["same_as_before"] and row["derived_same"] and row["loaded_values_equal"]):
+            vs.append(C.viol("metadata-lost-in-derived-class", {"type": tkey}, row, {"derived": True}))
+    return len(tb), vs[:6]
+
+
 def run_case(case):
+    if case.get("derived"):
+        return derived_check()[1]
     if case.get("after_use"):
         workout()
     if case.get("registry"):
@@ -283,6 +342,9 @@ def run(ctx):
         x["case"] = dict(x.get("case") or {}, after_use=True)
     ctx.add(vs2)
     n += n2
+    n3, vs3 = derived_check()
+    ctx.add(vs3)
+    n += n3
     nctl = sum(len(t.controllers) for t in spec.types().values())
     nopt = sum(len(t.options) for t in spec.types().values())
     return {
@@ -292,7 +354,7 @@ def run(ctx):
                 "option, enum, array chunk; plus byte comparison of all regenerated base files; each comparison is a "
                 "distinct (type, field) pair",
         "exhaustive": True,
-        "comparisons_repeated_after_use": n2, "workout_operations": used,
+        "comparisons_repeated_after_use": n2, "types_compared_after_deriving_a_subclass": n3, "workout_operations": used,
         "types": len(per_type), "controllers": nctl, "options": nopt, "regenerated_files": k,
         "samples": [{"type": "Adsr", "fields_compared": per_type.get("Adsr")},
                     {"type": "MetaModule", "fields_compared": per_type.get("MetaModule")}],
